@@ -3173,6 +3173,12 @@ def _memo_invalidation_for(ctx, fi):
     return lacking
 
 
+def _strip_all(text, pieces):
+    for p_ in sorted(pieces, key=len, reverse=True):
+        text = text.replace(p_, "0")
+    return text
+
+
 def stale_memo(sm, new_locs):
     """of the locations a function newly keeps between calls, those that can go STALE by the look of the code: some exit returns
     what is stored there under a condition that reads nothing of the object's state (it tests only that the memo is filled, or
@@ -3215,6 +3221,13 @@ def stale_memo(sm, new_locs):
             continue
         fn0_ = getattr(getattr(sm, "w", None), "node", None)
         params_all = [a.arg for a in fn0_.args.posonlyargs + fn0_.args.args + fn0_.args.kwonlyargs if a.arg not in ("self", "cls", "class_")] if isinstance(fn0_, (ast.FunctionDef, ast.AsyncFunctionDef)) else []
+        local_callables = {}
+        if fn0_ is not None:
+            for n_ in ast.walk(fn0_):
+                if n_ is not fn0_ and isinstance(n_, (ast.FunctionDef, ast.AsyncFunctionDef)):
+                    local_callables[n_.name] = " ; ".join(norm(x_) for b_ in n_.body for x_ in ast.walk(b_) if isinstance(x_, ast.Attribute))
+                elif isinstance(n_, ast.Assign) and isinstance(n_.value, ast.Lambda) and len(n_.targets) == 1 and isinstance(n_.targets[0], ast.Name):
+                    local_callables[n_.targets[0].id] = " ; ".join(norm(x_) for x_ in ast.walk(n_.value.body) if isinstance(x_, ast.Attribute))
         computed_from = set()
         for it in stores:
             v = it.head.split(" = ", 1)[1] if " = " in it.head and not it.head.startswith("call ") else it.head
@@ -3225,6 +3238,10 @@ def stale_memo(sm, new_locs):
             for p_ in params_all:
                 if re.search(r"(?<![\w.])%s\(" % re.escape(p_), v.split(" = ", 1)[-1] if " = " in v else v):
                     from_value = from_value | {"<what the callable `%s` reads>" % p_}
+            # ... and a closure defined in the function reads what its body reads
+            for cn_, body_ in local_callables.items():
+                if re.search(r"(?<![\w.])%s\(" % re.escape(cn_), v.split(" = ", 1)[-1] if " = " in v else v):
+                    from_value = from_value | state_reads(body_, {loc})
             if re.search(r"(?<![\w.])_v\d+\b", v.split(" = ", 1)[-1] if " = " in v else v):
                 # the value is built in a local (a stream, a list) by loops that run when the memo is filled: what those loops
                 # range over is what the value is computed from
@@ -3273,6 +3290,47 @@ def stale_memo(sm, new_locs):
                     break
             if out:
                 continue
+        # a key that is a PROJECTION of an argument (its length, a slice, its type), filled only on the calls that passed a test of
+        # the argument ITSELF, and handed out before that test is made again: the call for which the test goes the other way gets
+        # the answer of one for which it did not
+        proj_done = False
+        for it in stores:
+            head = it.head.split(" in loop")[0].split(" after ")[0]
+            mk = re.match(r"^%s\[(.+?)\] = " % re.escape(loc), head)
+            if not mk or it.cond in (True, False):
+                continue
+            key_ = mk.group(1)
+            for p_ in params:
+                pr_ = r"(?<![\w.])%s\b" % re.escape(p_)
+                if not re.search(pr_, key_):
+                    continue
+                projections = [m_.group(0) for m_ in re.finditer(r"(?:len|type)\(%s\)|(?<![\w.])%s\[[^\]]*:[^\]]*\]" % (re.escape(p_), re.escape(p_)), key_)]
+                if not projections or re.search(pr_, _strip_all(key_, projections)):
+                    continue            # the argument itself is (part of) the key
+                tests = []
+                for a in (gi.f_opaques(it.cond) if it.cond not in (True, False) else []):
+                    if isinstance(a, str) and not mentions(a) and re.search(pr_, _strip_all(a, projections)) and (entails(it.cond, ("op", a)) or entails(it.cond, ("not", ("op", a)))):
+                        tests.append(a)
+                if not tests:
+                    continue
+                for it2 in sm.items:
+                    if it2 in stores or it2.kind != "exit" or not it2.head.startswith("return ") or not (mentions(it2.head) or mentions(fmt_formula(it2.cond) if it2.cond not in (True, False) else "")):
+                        continue
+                    hit_ = f_and(it2.cond, f_not(f_or(*[x.cond for x in stores])))
+                    if hit_ is False or not _sat_formula(hit_):
+                        continue
+                    open_ = [a for a in tests if not entails(hit_, ("op", a)) and not entails(hit_, ("not", ("op", a)))]
+                    if open_:
+                        out.append("%s is keyed by `%s`, a projection of the argument `%s`, and filled only on calls for which `%s` %s; a hit (`%s`) is handed out without that test: a call for which it goes the other way gets the answer of one for which it did not"
+                                   % (loc, key_[:40], p_, open_[0][:60], "holds" if entails(it.cond, ("op", open_[0])) else "fails", it2.head[:50]))
+                        proj_done = True
+                        break
+                if proj_done:
+                    break
+            if proj_done:
+                break
+        if proj_done:
+            continue
         if not computed_from:
             continue
         miss = f_or(*[it.cond for it in stores])         # the paths on which the memo is (re)filled
